@@ -384,6 +384,8 @@ class CBeltImpl(FleetImpl):
             if op[1] == "occ": return f"probe {self.edge.occupancy()}"
             if op[1] == "ready": return "probe " + " ".join(str(x.hid) for x in self.edge.ready_items())
             if op[1] == "mode": return f"probe {self.edge.state} {self.store.noaccumulation_mode_on}"
+            if op[1] == "stuck":     # items on the belt whose move process has ended without delivering them
+                return f"probe {sum(1 for it in self.store.items if it[0].id not in self.store.active_move_processes)}"
             if op[1] == "pat":
                 try: return "probe " + self.store._get_belt_pattern()[0]
                 except Exception: return "probe err"
